@@ -3,7 +3,7 @@ PROP = dict(
     lean_modules=["TongoProofs.C14", "TongoProofs.C14Tlb"],
     gen=["WalletConsts", "TlbTypes"],
     # the model IS the specification: bodies, envelope, digest, decoder outputs and verifier verdicts are bit-exact
-    spec_ops=("m.body", "m.bodyx", "m.extn", "m.raw", "m.decode", "m.verify", "prim.sha256"),
+    spec_ops=("m.body", "m.bodyx", "m.extn", "m.raw", "m.decode", "m.verify", "m.int", "m.intdec", "prim.sha256"),
     rule="every sending version (V3R1, V3R2, V4R1, V4R2, V5Beta, V5R1, HighLoadV2R2) x random Ed25519 keys x workchain / "
          "sub-wallet / network options x seqno and valid-until in {0,1,2^31,2^32-1,random} x 0..4 messages mostly, 5/17/100/"
          "max-1/max for the large-capacity versions, max+1 and max+50 for the limit; messages are either marshalled "
